@@ -353,7 +353,7 @@ pub fn run(ctx: &Ctx) -> Report {
     total.merge(rnd);
     Report {
         stats: total,
-        rule: "random trees built from the public constructors over the full vocabulary (node kinds the parser can return: tests, actions, operators, the positional option) with unsupported constructs at random positions, every unsupported construct alone and in fixed dead/negated/nested positions, and all-supported trees. Oracle: support partition written from ast.rs ('not supported in the final scheme output') -> compile is Err iff the tree contains an unsupported construct and the message contains that construct's variant name; for Ok no symbol outside the runtime vocabulary (a placeholder) occurs in the program; what a supported expression is translated into is decided by C02. Non-trivial: unsupported construct not at the root / not the first leaf; or a supported tree with >=2 operators. Distinct: by tree.".into(),
+        rule: "random trees built from the public constructors over the full vocabulary (node kinds the parser can return: tests, actions, operators, the positional option) with unsupported constructs at random positions, every unsupported construct alone and in fixed dead/negated/nested positions, and all-supported trees. Oracle: support partition written from ast.rs ('not supported in the final scheme output') -> compile is Err iff the tree contains an unsupported construct and the message contains that construct's variant name; for Ok no symbol outside the runtime vocabulary (a placeholder) occurs in the program; what a supported expression is translated into is decided by C02. Also: interaction triples with unsupported leaves in every position, a pair of tests with an empty (or constant) answer followed by each unsupported construct, supported expressions with 0..1000 matchers and up to 300 destinations (they must compile). Non-trivial: unsupported construct not at the root / not the first leaf; or a supported tree with >=2 operators. Distinct: by tree.".into(),
         assumptions: vec!["Global/Precedence nodes are excluded: parse never returns them (C01, C13 check exactly that)".into()],
         exhaustive: false,
     }
